@@ -4,7 +4,7 @@ sys.path.insert(0, os.path.dirname(__file__))
 from funnel_common import funnel_job, funnel_conc_job, funnel_shared_job, FUNNEL_RULE, FUNNEL_ASSUME
 
 PROP = {
-    "lean_modules": ["ConduitModel.Props.C07", "ConduitModel.Facts.C07"],
+    "lean_modules": ["ConduitModel.Props.C07", "ConduitModel.Facts.C07", "ConduitModel.Props.ArbiterProps"],
     "jobs": [
         {"harness": "h_pure", "comp": "dlqwindow", "n_quick": 20000, "n_thorough": 700000,
          "why": "verdicts of the real dlqWindow (v1 stream / v2 funnel) differ from the model that is proved equal to the C07 window specification"},
@@ -12,17 +12,12 @@ PROP = {
     ],
     "rule": "dlqwindow: (size, threshold, outcome sequence | batch list) from a seeded generator biased to small windows; "
             "a case is non-trivial when at least one nack was refused; distinct = distinct case lines. " + FUNNEL_RULE,
-    "strength": "window clause: full (all sizes, thresholds, histories, partitions); pipeline-level DLQ clauses: see level_note",
+    "strength": 'window clause: full (all sizes, thresholds, histories, partitions); fan-out nack arbitration: full; pipeline-level DLQ clauses: partial',
     "assumptions": ["the ring buffer is only driven through Ack/Nack (no concurrent access: it is owned by one goroutine in both engines)"],
 }
 
 META = {
-    "text": "Lean 4 theorems, for every window size, threshold, outcome history and batch partition: the v1 ring buffer refines the "
-            "abstract 'last size outcomes' specification (C07_window_refines), v2 batches decide exactly as v1 record-by-record "
-            "(C07_v1_v2_same_decisions), size 0 removes the limit, threshold 0 tolerates none, refusal is sticky. The model is tied to "
-            "the real dlqWindow of both engines by differential runs on generated sequences and to the API's config guards by regenerated facts.",
-    "note": "Proved about the model; the code is tied by correspondence testing (finite sample) and regenerated facts. Pipeline-level "
-            "DLQ clauses (exactly-once write, ack only after DLQ ack, source order) are covered by the funnel/stream components as they are added; "
-            "until then only the window clause is decided here. Trusted: Lean kernel, factgen, harness, Go runtime.",
-    "technique": "Lean 4 refinement proof (ring buffer -> sliding-window spec) + differential correspondence against the real code",
+    "text": "Lean 4 theorems, for every window size, threshold, outcome history and batch partition: the v1 ring buffer refines the abstract 'last size outcomes' specification (C07_window_refines), v2 batches decide exactly as v1 record-by-record (C07_v1_v2_same_decisions), size 0 removes the limit, threshold 0 tolerates none, refusal is sticky; under fan-out every position is released at most once and a nack vote on a non-terminal position wins (C07_ma_nack_once, C07_ma_nack_wins). Tied to the real dlqWindow of both engines by differential runs, to the API's config guards by regenerated facts, and the pipeline-level clauses (DLQ exactly once, ack only after confirmed DLQ write, DLQ in source order) by the C07 monitor on funnel traces.",
+    "note": 'Window clause: full. Pipeline-level clauses for v2: PARTIAL: the composition of these leaf theorems with the task recursion of Worker.doTaskAttempt/doNextTask (whole-pass statement) is validated by equality of event logs against the executable Lean model and by the Lean-defined trace monitor on every implementation trace (serial fan-out orders, real concurrent fan-out, several sources into one shared sink), not proved. v1 (default engine) part: Props/*Stream when merged. Trusted: Lean kernel, factgen, harness/fakes, Go runtime.',
+    "technique": 'Lean 4 refinement proof (ring buffer -> sliding-window spec) + arbiter invariants + differential correspondence + trace monitor',
 }
